@@ -60,6 +60,7 @@ type Contract struct {
 	ParamAlias map[string]int // interface parameter name -> position
 	logs       []string
 	LogParams  map[string]string // parameter name -> ghost log of the dynamic calls made through it
+	NoMapRange []string          // callee-name substrings that must not be called inside a loop ranging over a map
 }
 
 type SpecFun struct {
@@ -317,6 +318,10 @@ func (ct *ContractTable) LoadFile(path, pkg string, inRepo bool) {
 					cur.LogParams = map[string]string{}
 				}
 				cur.LogParams[fs[0]] = fs[1]
+			case "nomaprange":
+				// nomaprange <callee substrings>: these calls must not happen inside a loop that ranges
+				// over a map (Go randomises the iteration order; the effect would depend on it)
+				cur.NoMapRange = append(cur.NoMapRange, strings.Fields(rest)...)
 			case "noinline":
 				cur.NoInline = true
 			case "inline":
